@@ -104,14 +104,36 @@ func (n *ParallelNode) Run(ctx context.Context) error {
 	defer func() {
 		close(workerJobs)
 		close(coordinatorJobs)
-		workerWg.Wait()
-		coordinatorWg.Wait()
+		// Keep draining errs while waiting for the workers and the coordinator:
+		// the coordinator reports one error per failed job and errs only has
+		// room for n.Workers of them. Once this function stopped reading errs
+		// through the trigger, a coordinator blocked on a full errs channel
+		// would never return, the workers behind it neither, and the whole
+		// pipeline would never finish stopping.
+		stopped := make(chan struct{})
+		go func() {
+			workerWg.Wait()
+			coordinatorWg.Wait()
+			close(stopped)
+		}()
+		collect := func(workerErr error) {
+			err = cerrors.LogOrReplace(err, workerErr, func() {
+				n.logger.Warn(ctx).Err(workerErr).Msg("parallel worker node failed")
+			})
+		}
 		for {
 			select {
 			case workerErr := <-errs:
-				err = cerrors.LogOrReplace(err, workerErr, func() {
-					n.logger.Warn(ctx).Err(workerErr).Msg("parallel worker node failed")
-				})
+				collect(workerErr)
+				continue
+			case <-stopped:
+			}
+			break
+		}
+		for {
+			select {
+			case workerErr := <-errs:
+				collect(workerErr)
 			default:
 				return
 			}
